@@ -76,10 +76,15 @@ def run_impl(cases, pats, las):
                 res.append(('ok', list(r)))
             except SystemExit as e:
                 res.append(('exit', str(e.code)))
+            except Exception as e:      # noqa: an exception other than the documented error exit
+                res.append(('raise', '%s: %s' % (type(e).__name__, e)))
         pres = []
         for n, w in pats:
-            m = shlibs._ldd_library_pattern(n).match(w)
-            pres.append((bool(m), m.group() if m else None))
+            try:
+                m = shlibs._ldd_library_pattern(n).match(w)
+                pres.append((bool(m), m.group() if m else None))
+            except Exception as e:      # noqa
+                pres.append((False, 'raise %s: %s' % (type(e).__name__, e)))
         lres = []
         for data in las:
             p = os.path.join(tmp, 'x.la')
